@@ -81,6 +81,40 @@ def run_mode(mode, tier, seed, key):
         return reqs, ans, False
 
 
+def stage_compare(kind, exp, out):
+    """Compare implementation output `exp` with model answer `out` for a stage line; None if they agree."""
+    if exp == out:
+        return None
+    et, ot = exp.split(), out.split()
+    if kind == "s4":
+        if et[:2] != ot[:2]:
+            return f"count {ot[:2]} vs {et[:2]}"
+        return vlib.ops_equal(et[4:], ot[4:])
+    return f"model {out[:120]} vs implementation {exp[:120]}"
+
+
+def run_stages(kinds, tier, seed, key):
+    """Stage correspondence: harness `stage-gen` dumps each stage's inputs/outputs, the Lean stage models answer
+    the same requests.  Returns (number of stage cases compared, list of (request, message))."""
+    cdir = os.path.join(vlib.WORK, "pipecache", key)
+    os.makedirs(cdir, exist_ok=True)
+    cases = os.path.join(cdir, f"stages_{tier}_{seed}.cases")
+    with vlib.Lock(f"stages_{tier}_{seed}"):
+        if not os.path.exists(cases):
+            r = vlib.harness(["stage-gen", tier, cases], seed=seed)
+            if r.returncode != 0:
+                raise RuntimeError("stage-gen failed: " + r.stderr[-2000:])
+    reqs, exps = vlib.read_cases(cases)
+    sel = [i for i, q in enumerate(reqs) if q.split(" ", 1)[0] in kinds]
+    outs = vlib.run_model([reqs[i] for i in sel])
+    bad = []
+    for i, o in zip(sel, outs):
+        m = stage_compare(reqs[i].split(" ", 1)[0], exps[i], o)
+        if m:
+            bad.append((reqs[i], m))
+    return len(sel), bad
+
+
 def parse_answer(a):
     parts = a.split(" | ")
     if len(parts) < 4:
@@ -102,7 +136,7 @@ def short_case(line):
             "number": seg(line, "number"), "hallnum": seg(line, "hallnum"), "nops": seg(line, "nops")}
 
 
-def run_property(pid, tier, seed, modes, props, level_text_keys, nontrivial, extra=None, trusted=None, level="proof"):
+def run_property(pid, tier, seed, modes, props, level_text_keys, nontrivial, extra=None, trusted=None, level="proof", stages=None):
     """Generic run: `modes` list of mode names; `props` list of (module, relpath); `nontrivial(parsed, line)`
     -> bool; `extra(run, per_mode)` may add clause failures computed across cases (twins)."""
     run = vlib.Run(pid, tier, seed, level)
@@ -163,6 +197,15 @@ def run_property(pid, tier, seed, modes, props, level_text_keys, nontrivial, ext
             samples.append(short_case(reqs[len(reqs) // 3]))
     if extra:
         failing += extra(per_mode)
+    stage_bad = []
+    if stages:
+        try:
+            nst, stage_bad = run_stages(stages, tier, seed, key)
+            cov["stage_cases_compared"] = nst
+            cov["stage_model_impl_disagreements"] = len(stage_bad)
+            cov["stages"] = stages
+        except RuntimeError as e:
+            stage_bad = [("stage-gen", str(e))]
     cov["evaluations"] = total
     cov["distinct_nontrivial"] = nontriv
     cov["samples"] = samples
@@ -182,9 +225,16 @@ def run_property(pid, tier, seed, modes, props, level_text_keys, nontrivial, ext
             "how_to_replay": f"python3 check.py {pid} --replay <this file>  (regenerates the case with the same seed against the current tree and re-runs the Lean oracle)",
             "others": [{"mode": m, "tag": l.split(' ')[1], "clauses": w} for m, l, w in failing[1:30]],
             "case": line})
-    elif ob["failures"]:
-        run.violation("unchecked.txt", "proof obligations that no longer check:\n" + "\n".join("  " + f for f in ob["failures"]) +
-                      f"\nthe Lean oracles hold on all {total} explored datasets (modes {modes}, seed {seed})", no_input=True)
+    elif ob["failures"] or stage_bad:
+        txt = ""
+        if ob["failures"]:
+            txt += "proof obligations that no longer check:\n" + "\n".join("  " + f for f in ob["failures"]) + "\n"
+        if stage_bad:
+            txt += f"stage correspondence (model vs implementation) broken on {len(stage_bad)} stage cases; first:\n"
+            for q, m in stage_bad[:5]:
+                txt += f"  {q[:300]}\n    -> {m}\n"
+        txt += f"the Lean oracles hold on all {total} explored datasets (modes {modes}, seed {seed})"
+        run.violation("unchecked.txt", txt, no_input=True)
     return run.finish()
 
 
